@@ -288,8 +288,12 @@ func c16streamRequests(rep *vh.Report, seed uint64, idx int) {
 		trs = append(trs, tr)
 		eps = append(eps, gomavlib.EndpointCustom{ReadWriteCloser: tr})
 	}
-	node := &gomavlib.Node{Endpoints: eps, Dialect: &dialect.Dialect{Version: 3, Messages: msgs}, OutVersion: gomavlib.V2, OutSystemID: 9,
+	ownSys, ownComp := byte(1+r.Intn(250)), byte(r.Intn(4)) // component 0 = unset = 1
+	node := &gomavlib.Node{Endpoints: eps, Dialect: &dialect.Dialect{Version: 3, Messages: msgs}, OutVersion: gomavlib.V2, OutSystemID: ownSys, OutComponentID: ownComp,
 		HeartbeatDisable: true, StreamRequestEnable: enabled, StreamRequestFrequency: freq}
+	if ownComp == 0 {
+		ownComp = 1
+	}
 	if err := node.Initialize(); err != nil {
 		rep.HarnessError(err.Error())
 		return
@@ -317,7 +321,15 @@ func c16streamRequests(rep *vh.Report, seed uint64, idx int) {
 		if t.autopilot == 3 && r.Chance(1, 4) {
 			t.first = 12 // the same sender first shows up with another autopilot type: its first ArduPilot heartbeat comes later
 		}
-		if len(tuples) > 0 && r.Chance(1, 4) {
+		switch len(tuples) {
+		case 1:
+			t.sys, t.comp = ownSys, ownComp // a sender that uses the node's own system and component id
+		case 2:
+			t.sys, t.comp = ownSys, ownComp+1
+		case 3:
+			t.sys, t.comp = ownSys+1, ownComp
+		}
+		if len(tuples) > 3 && r.Chance(1, 4) {
 			// the same (system, component) as an earlier sender, on another channel: senders are per channel
 			o := tuples[r.Intn(len(tuples))]
 			t.sys, t.comp = o.sys, o.comp
